@@ -576,25 +576,32 @@ theorem walkRes_ok (w : List (Key × Nat)) (hw : WalkOK eg w) (k : Key) : hasFla
   | none => exact zeroFlags_ok eg
   | some kf => exact hw kf (List.mem_of_find?_eq_some hf)
 
-/-- what Browse does to one record of a cached store -/
-def browseRec (all : Bool) (w : List (Key × Nat)) (kr : Key × Rec) : Key × Rec :=
-  if !all && hasFlag kr.2.flags NO_BROWSE then kr
+/-- what Browse does to one record of a cached store (`vs`: the visit set, Model.Qdb.visitSet) -/
+def browseRec (all : Bool) (w : List (Key × Nat)) (vs : Option (List Key)) (kr : Key × Rec) : Key × Rec :=
+  if skipB all vs kr.2.flags kr.1 then kr
   else (kr.1, { kr.2 with flags := applyBrowsingFlags kr.2.flags (walkRes w kr.1) })
 
-def browseOut (all : Bool) (kr : Key × Rec) : Option (Key × Bytes) :=
-  if !all && hasFlag kr.2.flags NO_BROWSE then none else some (kr.1, kr.2.data.getD [])
+def browseOut (all : Bool) (vs : Option (List Key)) (kr : Key × Rec) : Option (Key × Bytes) :=
+  if skipB all vs kr.2.flags kr.1 then none else some (kr.1, kr.2.data.getD [])
 
-theorem browseFold_cached (all : Bool) (w : List (Key × Nat)) (hw : WalkOK eg w) (l : List (Key × Rec))
+/-- the visit set of a browse that starts on `db` -/
+def vsOf (all : Bool) (db : DB) (w : List (Key × Nat)) : Option (List Key) := visitSet Rec.flags all db.index w
+
+theorem skipB_none (all : Bool) (fl : Nat) (k : Key) : skipB all none fl k = (!all && hasFlag fl NO_BROWSE) := by
+  simp [skipB]
+
+theorem browseFold_cached (all : Bool) (w : List (Key × Nat)) (vs : Option (List Key)) (hw : WalkOK eg w)
+    (l : List (Key × Rec))
     (hl : AllCached eg l) (db : DB) (hf : db.failed = none) (he : db.eager = eg) (acc : List (Key × Rec))
     (out : List (Key × Bytes)) :
-    l.foldl (browseStep all w) (db, acc, out) =
-      (db, acc ++ l.map (browseRec all w), out ++ l.filterMap (browseOut all)) := by
+    l.foldl (browseStep all w vs) (db, acc, out) =
+      (db, acc ++ l.map (browseRec all w vs), out ++ l.filterMap (browseOut all vs)) := by
   induction l generalizing acc out with
   | nil => simp
   | cons kr t ih =>
     have hc := hl kr List.mem_cons_self
-    have hstep : browseStep all w (db, acc, out) kr =
-        (db, acc ++ [browseRec all w kr], out ++ (browseOut all kr).toList) := by
+    have hstep : browseStep all w vs (db, acc, out) kr =
+        (db, acc ++ [browseRec all w vs kr], out ++ (browseOut all vs kr).toList) := by
       unfold browseStep browseRec browseOut
       simp only [hf]
       split
@@ -604,27 +611,50 @@ theorem browseFold_cached (all : Bool) (w : List (Key × Nat)) (hw : WalkOK eg w
         simp
     simp only [List.foldl_cons, hstep]
     rw [ih (fun x hx => hl x (List.mem_cons_of_mem _ hx))]
-    cases hb : browseOut all kr <;> simp [hb]
+    cases hb : browseOut all vs kr <;> simp [hb]
 
 theorem browseGen_cached (all : Bool) (db : DB) (w : List (Key × Nat)) (h : Cached db) (hw : WalkOK db.eager w) :
-    (browseGen all db w).1 = { db with index := db.index.map (browseRec all w) } ∧
-    (browseGen all db w).2 = db.index.filterMap (browseOut all) := by
-  unfold browseGen
+    (browseGen all db w).1 = { db with index := db.index.map (browseRec all w (vsOf all db w)) } ∧
+    (browseGen all db w).2 = db.index.filterMap (browseOut all (vsOf all db w)) := by
+  unfold browseGen vsOf
   simp only [h.1, Option.isSome_none, Bool.false_eq_true, ↓reduceIte]
-  rw [browseFold_cached all w hw db.index h.2 db h.1 rfl [] []]
+  rw [browseFold_cached all w _ hw db.index h.2 db h.1 rfl [] []]
   simp [h.1]
 
-theorem absE_browseRec (w : List (Key × Nat)) (kr : Key × Rec) :
-    absE (browseRec false w kr) =
-      (fun (x : Key × (Bytes × Nat)) => if hasFlag x.2.2 NO_BROWSE then x
+theorem absE_browseRec (w : List (Key × Nat)) (vs : Option (List Key)) (kr : Key × Rec) :
+    absE (browseRec false w vs kr) =
+      (fun (x : Key × (Bytes × Nat)) => if skipB false vs x.2.2 x.1 then x
         else (x.1, x.2.1, applyBrowsingFlags x.2.2 (walkRes w x.1))) (absE kr) := by
   unfold browseRec absE absRec
-  simp only [Bool.not_false, Bool.true_and]
-  split <;> rfl
+  by_cases hb : skipB false vs kr.2.flags kr.1 = true
+  · simp only [hb, ↓reduceIte]
+  · simp only [hb, Bool.false_eq_true, ↓reduceIte]
+
+/-- eligibility and the visit set only look at keys and flag words: the store's and its abstract map's agree -/
+theorem eligible_absE (all : Bool) (l : List (Key × Rec)) (k : Key) :
+    eligible (α := Bytes × Nat) (·.2) all (l.map absE) k = eligible Rec.flags all l k := by
+  unfold eligible
+  induction l with
+  | nil => rfl
+  | cons x t ih =>
+    simp only [List.map_cons, ilookup, absE]
+    by_cases hk : x.1 = k
+    · simp [hk, absRec]
+    · simp only [hk, ↓reduceIte]; exact ih
+
+theorem visitSetAux_congr (e1 e2 : Key → Bool) (h : ∀ k, e1 k = e2 k) (w : List (Key × Nat)) (seen : List Key) :
+    visitSetAux e1 w seen = visitSetAux e2 w seen := by
+  have : e1 = e2 := funext h
+  rw [this]
+
+theorem mvisitSet_absv (all : Bool) (db : DB) (w : List (Key × Nat)) :
+    mvisitSet all (absv db) w = vsOf all db w := by
+  unfold mvisitSet vsOf visitSet absv
+  exact visitSetAux_congr _ _ (eligible_absE all db.index) w []
 
 theorem browse_cached (db : DB) (w : List (Key × Nat)) (h : Cached db) (hw : WalkOK db.eager w) :
     Cached (browse db w).1 ∧ absv (browse db w).1 = mstep (absv db) (.browse w) ∧
-    (browse db w).2 = mbrowseOut (absv db) := by
+    (browse db w).2 = mbrowseOutW w (absv db) := by
   obtain ⟨h1, h2⟩ := browseGen_cached false db w h hw
   unfold browse
   rw [h1, h2]
@@ -636,20 +666,48 @@ theorem browse_cached (db : DB) (w : List (Key × Nat)) (h : Cached db) (hw : Wa
     split
     · exact hc
     · exact ⟨hc.1, applyBF_keeps _ _ _ hc.2 (walkRes_ok w hw kr.1)⟩
-  · show List.map absE (List.map (browseRec false w) db.index) = mbrowseState (List.map absE db.index) w
+  · show List.map absE (List.map (browseRec false w (vsOf false db w)) db.index) = mbrowseState (absv db) w
     unfold mbrowseState
+    rw [mvisitSet_absv]
+    unfold absv
     simp only [List.map_map]
     apply List.map_congr_left
     intro kr _
     simp only [Function.comp, absE_browseRec]
-  · show _ = mbrowseOut (List.map absE db.index)
-    unfold mbrowseOut
+  · show _ = mbrowseOutW w (absv db)
+    unfold mbrowseOutW
+    rw [mvisitSet_absv]
+    unfold mbrowseOutV absv
+    generalize vsOf false db w = vs
     induction db.index with
     | nil => rfl
     | cons kr t ih =>
       simp only [List.filterMap_cons, List.map_cons, ih]
-      simp only [browseOut, absE, absRec, Bool.not_false, Bool.true_and]
-      by_cases hb : hasFlag kr.2.flags NO_BROWSE = true <;> simp [hb]
+      simp only [browseOut, absE, absRec]
+      by_cases hb : skipB false vs kr.2.flags kr.1 = true <;> simp [hb]
+
+/-- a walk function none of whose answers carries BR_ABORT -/
+def NoAbort (w : List (Key × Nat)) : Prop := ∀ kf ∈ w, hasFlag kf.2 BR_ABORT = false
+
+theorem visitSetAux_noAbort (el : Key → Bool) (w : List (Key × Nat)) (h : NoAbort w) (seen : List Key) :
+    visitSetAux el w seen = none := by
+  induction w generalizing seen with
+  | nil => rfl
+  | cons x t ih =>
+    obtain ⟨k, f⟩ := x
+    have hf : hasFlag f BR_ABORT = false := h (k, f) List.mem_cons_self
+    have ht : NoAbort t := fun kf hkf => h kf (List.mem_cons_of_mem _ hkf)
+    simp only [visitSetAux, hf]
+    split
+    · exact ih ht _
+    · simp only [Bool.false_eq_true, ↓reduceIte]; exact ih ht _
+
+/-- without a BR_ABORT answer the browse is the plain one: every record not flagged NO_BROWSE -/
+theorem mbrowseOutW_noAbort (w : List (Key × Nat)) (h : NoAbort w) (m : M) : mbrowseOutW w m = mbrowseOut m := by
+  unfold mbrowseOutW mvisitSet visitSet
+  rw [visitSetAux_noAbort _ w h]
+  unfold mbrowseOutV mbrowseOut
+  simp only [skipB_none, Bool.not_false, Bool.true_and]
 
 theorem notFailed {db : DB} (h : Cached db) : ¬ (db.failed.isSome = true) := by simp [h.1]
 
